@@ -70,6 +70,7 @@ def _name(r: random.Random, style: str) -> str:
     raise ValueError(style)
 
 
+RESERVED = {'t', 'w', 'x1', 'x2', 'z', 'choice'}  # columns of the generated tables (a parameter may not share a name with a variable)
 HOSTILE_STYLES = ['plain', 'spaces', 'unicode', 'punct', 'numeric', 'comment', 'comment', 'edge-blank', 'equals', 'bracketed', 'spaces', 'unicode']
 
 
@@ -90,7 +91,7 @@ def make_names(r: random.Random, k: int, mode: str) -> list[str]:
             n = r.choice([n + ' ', ' ' + n, n + ' = 1', n + '  ', '#' + n])
         else:
             n = _name(r, st)
-        if n in seen or not n.strip() or '\n' in n or '\r' in n:
+        if n in seen or not n.strip() or '\n' in n or '\r' in n or n in RESERVED:
             continue
         seen.add(n)
         out.append(n)
